@@ -37,7 +37,8 @@ def add_samples_jobs(tier, props, blobs=(None,), vectorized=(False,)):
                                 [max(x - 1, 0) if i % 2 else x
                                  for i, x in enumerate(m)],
                                 blobs=bl, vectorized=vec, unroll=unroll,
-                                props=props), pkg_key='sampler'))
+                                props=props), pkg_key='sampler',
+                                max_paths=30000 if thorough else 3000))
     # exploration phase: newest shell, with transfer candidates
     expl = [([1, 0], []), ([1, 1], []), ([1, 1, 0], [0]), ([1, 1, 0], [1]),
             ([1, 1, 0], [0, 1]), ([2, 1, 1], [0, 0]), ([1, 1, 1], [-1, 0])]
@@ -52,7 +53,8 @@ def add_samples_jobs(tier, props, blobs=(None,), vectorized=(False,)):
                         m=m, prov=prov, shell=-1, n_batch=nb, explored=False,
                         blobs=bl, vectorized=vec, unroll=unroll, props=props,
                         neg_inf=[[0, 0]] if len(prov) == 1 else []),
-                        pkg_key='sampler'))
+                        pkg_key='sampler',
+                        max_paths=30000 if thorough else 3000))
     return jobs
 
 
@@ -128,5 +130,5 @@ def run_jobs(tier, props, which=('explored', 'empty', 'end', 'bound')):
         add(dict(m=[2], explored=False, n_batch=1, K=1, n_live=1))
         if thorough:
             add(dict(m=[1, 1], explored=False, n_batch=1, K=1, n_live=1,
-                     prov=[0]), max_paths=12000)
+                     prov=[0]), max_paths=60000)
     return jobs
